@@ -3,12 +3,15 @@ CONSTANTS
   LW = 5
   CW = 6
   MaxRows = 2
-  DPc = {1, 14, 15, 16, 17, 30, 31, 45, 46, 5000, 20001}
-  DLine <- RealDL
-  DCol <- RealDC
-  Line0 = 100050
-  Col0 = 10070
-  Greedy = FALSE
+  DPc1 = {0, 1, 14, 15, 16, 17, 30, 31, 45, 46, 1000}
+  DLine1 <- RealDL
+  DCol1 <- RealDC
+  DPc2 = {1, 16}
+  DLine2 <- RealDL2
+  DCol2 <- RealDC2
+  Line0 = 1050
+  Col0 = 1070
+  Greedy = TRUE
 INIT Init
 NEXT Next
 INVARIANTS RoundTrip WordsFit Shape GreedyEq LookupOK LookupNone
